@@ -14,7 +14,7 @@ T1=$(date +%s.%N)
 LINE=$(echo "$OUT" | grep '^VERIF-BOUNDED C18' | head -1)
 FIRST=$(echo "$OUT" | grep '^VERIF-BOUNDED-FIRST' | head -1 | sed 's/^VERIF-BOUNDED-FIRST //')
 echo "bounded: ${LINE:-no result line (harness did not run: rc=$RC)}"
-python3 - "$V" "$MODE" "$B" "$LINE" "$FIRST" "$RC" "$T0" "$T1" <<'PY'
+[ -n "${VERIF_NO_EVIDENCE:-}" ] || python3 - "$V" "$MODE" "$B" "$LINE" "$FIRST" "$RC" "$T0" "$T1" <<'PY'
 import json,sys,re
 V,mode,B,line,first,rc,t0,t1=sys.argv[1:9]
 f=V+'/evidence/C18.json'
